@@ -11,9 +11,10 @@
 //!          before `run` is called, i.e. the request is pending when the evaluation starts);
 //!   none   no request (control: the program must finish by itself).
 //! The evaluation runs on the main thread.  After the request the watcher waits <bound_ms> for `run` to
-//! return.  If it does not, the watcher issues a SECOND request and waits <bound_ms> again: a run that
-//! returns now had a poll but LOST the first request; a run that still does not return is stuck in a
-//! region without poll (or hangs for another reason) — the watcher prints the verdict and exits(3).
+//! return.  If it does not, the watcher issues up to 40 FURTHER requests (one per ~1.3 ms) during a second
+//! period of <bound_ms>: a run that returns now had a poll but LOST the earlier request(s); a run that
+//! still does not return is stuck in a region without poll (or hangs for another reason) — the watcher
+//! prints the verdict and exits(3).
 //!
 //! stdout, one line per case:
 //!   case <id> outcome=<interrupted|lost-then-interrupted|hang|finished|error:<text>|panic>
@@ -147,19 +148,25 @@ fn main() {
                     }
                     std::thread::sleep(Duration::from_micros(100));
                 }
-                // second request: distinguishes a lost request from a region without poll
-                controller.interrupt();
-                requests.fetch_add(1, Ordering::SeqCst);
+                // further requests (one per ~1.3 ms, up to 40): distinguishes a LOST request (the loop polls,
+                // a later request gets through) from a region without poll (no request ever gets through)
                 let w = Instant::now();
+                let mut k: u64 = 0;
                 while w.elapsed() < bound {
                     if done.load(Ordering::SeqCst) {
                         return;
                     }
+                    if k < 40 && w.elapsed() >= Duration::from_micros(1300 * k + 37 * (k % 7)) {
+                        controller.interrupt();
+                        requests.fetch_add(1, Ordering::SeqCst);
+                        k += 1;
+                    }
                     std::thread::sleep(Duration::from_micros(100));
                 }
                 emit(&format!(
-                    "case {id} outcome=hang latency_us=-1 marked={} requests=2 probe=skipped",
-                    MARK.load(Ordering::SeqCst) as u8
+                    "case {id} outcome=hang latency_us=-1 marked={} requests={} probe=skipped",
+                    MARK.load(Ordering::SeqCst) as u8,
+                    requests.load(Ordering::SeqCst)
                 ));
                 std::process::exit(3);
             })
